@@ -573,6 +573,60 @@ func c17Setstat(u *vfUnit) {
 			}
 		}
 	}
+	// SETSTAT by a path whose last element is a symbolic link: like the os calls, it acts on what the link points at
+	la, lb := filepath.Join(dir, "la"), filepath.Join(dir, "lb")
+	os.Symlink("a", la)
+	os.Symlink("b", lb)
+	for sub := uint32(1); sub < 16; sub++ {
+		u.Eval(fmt.Sprintf("setstat-via-link:%d", sub))
+		u.Count("setstat_subsets", 1)
+		for _, p := range []string{a, b} {
+			os.Remove(p)
+			os.WriteFile(p, vfPattern(3, 0, 100), 0o644)
+			os.Chown(p, 111, 222)
+			os.Chmod(p, 0o644)
+			os.Chtimes(p, base, base)
+		}
+		os.Lchown(la, 5, 6)
+		os.Lchown(lb, 5, 6)
+		at := vfAttrs{Flags: sub, Size: 37, UID: 4321, GID: 8765, Perm: 0o100000 | 0o751, Atime: 1400000000, Mtime: 1300000000}
+		id++
+		resp, err := rs.R.Phase(60*time.Second, vfPkt{Type: rfSetstat, ID: id, Path: la, Attrs: at})
+		if err != nil {
+			u.Violation("setstat:transport", err.Error(), nil)
+			return
+		}
+		var terr error
+		if sub&rfAttrSize != 0 && terr == nil {
+			terr = os.Truncate(lb, int64(at.Size))
+		}
+		if sub&rfAttrPerm != 0 && terr == nil {
+			want, _ := pxWant(at.Perm)
+			terr = os.Chmod(lb, want)
+		}
+		if sub&rfAttrUIDGID != 0 && terr == nil {
+			terr = os.Chown(lb, int(at.UID), int(at.GID))
+		}
+		if sub&rfAttrTime != 0 && terr == nil {
+			terr = os.Chtimes(lb, time.Unix(int64(at.Atime), 0), time.Unix(int64(at.Mtime), 0))
+		}
+		sa, sb := c17Get(a), c17Get(b)
+		if sub&rfAttrTime == 0 {
+			sa.atime, sb.atime, sa.mtime, sb.mtime = 0, 0, 0, 0
+		}
+		owner := func(p string) string {
+			fi, err := os.Lstat(p)
+			if err != nil {
+				return err.Error()
+			}
+			st := fi.Sys().(*syscall.Stat_t)
+			return fmt.Sprintf("%d:%d", st.Uid, st.Gid)
+		}
+		ok := len(resp) == 1 && resp[0].Type == rfStatus && (resp[0].Code == rfOK) == (terr == nil)
+		if !ok || sa != sb || owner(la) != owner(lb) {
+			u.Violation(fmt.Sprintf("setstat:via-symlink:flags=%#x", sub), fmt.Sprintf("SETSTAT flags=%#x on a symbolic link to a file: reply %v, target now %+v, link owner %s; the same os calls on a twin give %+v, link owner %s (err %v)", sub, resp, sa, owner(la), sb, owner(lb), terr), map[string]any{"flags": sub})
+		}
+	}
 	if msg := rs.End(60 * time.Second); msg != "" {
 		u.Violation("setstat:end", msg, nil)
 	}
@@ -640,6 +694,10 @@ func c17LongNames(u *vfUnit) {
 			uid, gid := 0, 0
 			if u.Rng.Bool() {
 				uid, gid = u.Rng.Intn(70000), u.Rng.Intn(70000)
+			}
+			if i%4 == 1 {
+				// ids the host knows by name, group and user databases disagreeing about the number (adm/sync, tty/...)
+				uid, gid = []int{1, 2, 3, 4, 5, 8, 65534}[u.Rng.Intn(7)], []int{4, 5, 6, 15, 20, 24, 42, 100, 65534}[u.Rng.Intn(9)]
 			}
 			os.Lchown(p, uid, gid)
 			syscall.Chmod(p, perm)
